@@ -23,14 +23,14 @@ theorem G01_bucketOffset (i : BitVec 32) : (Funcs.bucketOffset i).toNat = 512 * 
 /-- **`index.bucketIndex` is the model's `bucketIdx`** — for every level below 255 (the code's level is a
 `uint8`; 32 levels already exceed the 2³² buckets the format can address), split pointer and hash. -/
 theorem G01_bucketIndex (level : BitVec 8) (split hash : BitVec 32) (hl : level.toNat < 255) :
-    (Funcs.bucketIndex level split hash).toNat = bucketIdx level.toNat split.toNat hash.toNat := by
+    (Funcs.bucketIndex hash (f_level := level) (f_splitBucketIdx := split)).toNat = bucketIdx level.toNat split.toNat hash.toNat := by
   unfold Funcs.bucketIndex bucketIdx
   have hl1 : (level + 1#8).toNat = level.toNat + 1 := by bv_omega
   have hl1' : (1#8 + level).toNat = level.toNat + 1 := by bv_omega
   simp only [BitVec.lt_def, gt_iff_lt, and_mask_toNat, mask_and_toNat, hl1, hl1', apply_ite BitVec.toNat]
 
 /-- `index.put` refuses exactly at `MaxKeys`. -/
-theorem G01_indexFullGuard (n : BitVec 32) : Funcs.indexFullGuard n = decide (n.toNat = 4294967295) := by
+theorem G01_indexFullGuard (n : BitVec 32) : Funcs.indexFullGuard (f_numKeys := n) = decide (n.toNat = 4294967295) := by
   unfold Funcs.indexFullGuard
   rw [decide_eq_decide]
   bv_omega
